@@ -295,7 +295,7 @@ pub fn suite(kind: &'static str, prop: &str, tier: &str, seed: u64) -> Report {
     layouts.push(Layout { zero: "00", ..c.clone() });
     layouts.push(Layout { leading_zeros: 1, ..c.clone() });
     layouts.push(Layout { leading_zeros: 21, ..c.clone() });
-    for filler in [vec![""], vec!["c comment"], vec!["c"], vec!["", "c x", ""], vec!["c x", "", "c y"], vec!["  "], vec!["\t"], vec!["c 1 2 0"], vec!["cnf"], vec!["c 10%\r 20%"], vec!["c\r"]] {
+    for filler in [vec![""], vec!["c comment"], vec!["c"], vec!["", "c x", ""], vec!["c x", "", "c y"], vec!["  "], vec!["\t"], vec!["c 1 2 0"], vec!["cnf"], vec!["c 10%\r 20%"], vec!["c\r"], vec!["c Jos\u{e9} N\u{fa}\u{f1}ez \u{2014} \u{1f600} solver"]] {
         layouts.push(Layout { filler: filler.clone(), ..c.clone() });
         layouts.push(Layout { filler, split: 1, ..c.clone() });
     }
@@ -462,9 +462,13 @@ pub fn suite(kind: &'static str, prop: &str, tier: &str, seed: u64) -> Report {
             for (li, l) in ls.iter().enumerate() {
                 let positions = render(d, l, None).tokens.len();
                 for pos in 0..positions {
-                    for (bi, bad) in ["x", "@@", "1x", "-x", "99999999999999999999", "-99999999999999999999"].iter().enumerate() {
+                    for (bi, bad) in ["x", "@@", "1x", "-x", "99999999999999999999", "-99999999999999999999", "4000000"].iter().enumerate() {
+                        // a number that fits every integer type but exceeds the declared variable / group count: literals and gcnf groups of documents with such a count
+                        if bi == 6 && !(is_literal_position(d, pos) && header_num(d, 0) > 0 || d.kind == "gcnf" && is_prefix_position(d, pos) && header_num(d, 2) > 0) {
+                            continue;
+                        }
                         // a number far outside every range is a corruption of a literal only (header counts and weights have other checks)
-                        if bi >= 5 && !is_literal_position(d, pos) {
+                        if bi == 5 && !is_literal_position(d, pos) {
                             continue;
                         }
                         let t = render(d, l, Some((pos, bad)));
@@ -487,7 +491,7 @@ pub fn suite(kind: &'static str, prop: &str, tier: &str, seed: u64) -> Report {
         }
     }
     rep.bound = format!(
-        "{}: {} structured documents (with and without header); C07: {} layouts (each feature alone: separators, trailing blanks, CRLF, no final newline, -0/00 terminator, leading zeros, blank and comment lines before the header, between clauses and inside split clauses, indentation; plus {} seeded combinations); C06: every number position x {} numbers around the i16/i32/i64/u64/usize boundaries; C08: every number token corrupted in 5 ways x 5 layouts; 3 read schedules each",
+        "{}: {} structured documents (with and without header); C07: {} layouts (each feature alone: separators, trailing blanks, CRLF, no final newline, -0/00 terminator, leading zeros, blank and comment lines before the header, between clauses and inside split clauses, indentation; plus {} seeded combinations); C06: every number position x {} numbers around the i16/i32/i64/u64/usize boundaries; C08: every number token corrupted in 5 ways (literals 7, gcnf groups 6: also beyond the declared count) x 5 layouts; 3 read schedules each",
         kind,
         docs.len(),
         layouts.len(),
@@ -579,7 +583,8 @@ pub fn satlog_suite(prop: &str, tier: &str, seed: u64) -> Report {
     let cases: [(&str, Vec<i32>); 5] = [("SATISFIABLE", vec![1, -2, 3, -4, 5]), ("SATISFIABLE", vec![]), ("SATISFIABLE", vec![-2147483647, 2147483647]), ("UNSATISFIABLE", vec![]), ("UNKNOWN", vec![])];
     // a comment line of a solver log is `c` followed by a blank (a bare `c` is an unknown line: the crate's own test treats it so)
     let comment_fillers: [&[&str]; 4] = [&["c "], &["c comment"], &["c s UNSATISFIABLE", "c v 9 0"], &["c ", "c  ", "c x"]];
-    let unknown_fillers: [&[&str]; 7] = [&[""], &["o 5"], &["", ""], &["random text"], &["c x", "", "o 1"], &["   "], &["c"]];
+    // (the last three: an indented status / value line is an unknown line, also directly behind a comment line)
+    let unknown_fillers: [&[&str]; 10] = [&[""], &["o 5"], &["", ""], &["random text"], &["c x", "", "o 1"], &["   "], &["c"], &["c x", "  v 9 8 0"], &["c", " s UNSATISFIABLE"], &["cpu time 3s", "\tv 7 0"]];
     let mut r = Rng::new(seed);
     let rounds = if tier == "thorough" { 4000 } else { 400 };
     let mut one = |rep: &mut Report, f: &Fmt, status: &str, lits: &[i32], split: usize, filler: &[&str], mask: u32, eol: &str, final_eol: bool, sep: &str| {
@@ -627,13 +632,29 @@ pub fn satlog_suite(prop: &str, tier: &str, seed: u64) -> Report {
             let fin = r.below(4) != 0;
             let sep = " "; // the property promises nothing about the blanks inside status and value lines
             one(&mut rep, strict, status, lits, split, comment_fillers[r.below(4)], mask, eol, fin, sep);
-            one(&mut rep, ign, status, lits, split, unknown_fillers[r.below(7)], mask, eol, fin, sep);
+            one(&mut rep, ign, status, lits, split, unknown_fillers[r.below(10)], mask, eol, fin, sep);
         }
     }
     rep.bound = format!("satlog: 5 logs (three statuses, empty and extreme assignments) x value lines broken after 1/2/3/all literals x comment lines (strict and ignoring mode) and unknown / blank lines (ignoring mode) at every single line boundary, CRLF, no final newline, plus {} seeded combinations; 3 read schedules", rounds);
     rep
 }
 
+fn header_num(d: &Doc, k: usize) -> i128 {
+    d.header.as_ref().and_then(|h| h.get(k)).and_then(|x| x.parse::<i128>().ok()).unwrap_or(0)
+}
+fn is_prefix_position(d: &Doc, pos: usize) -> bool {
+    let mut k = d.header.as_ref().map(|h| h.len()).unwrap_or(0);
+    for c in &d.clauses {
+        if c.prefix.is_some() {
+            if k == pos {
+                return true;
+            }
+            k += 1;
+        }
+        k += c.lits.len();
+    }
+    false
+}
 fn is_literal_position(d: &Doc, pos: usize) -> bool {
     let mut k = d.header.as_ref().map(|h| h.len()).unwrap_or(0);
     for c in &d.clauses {
